@@ -6,7 +6,7 @@
    select the code after / before the three fix: commits. *)
 From Coq Require Import List NArith Arith.
 From Kenlm Require Import C18.FilePieceModel C18.FilePieceSpec C18.WindowProofs C18.OpsProofs C18.MainProofs C18.Witnesses
-  C18.ReadCompressedModel C18.ReadCompressedProofs.
+  C18.ReadCompressedModel C18.ReadCompressedProofs C18.TokenizeModel C18.TokenizeProofs.
 Import ListNotations.
 
 (* MAIN: for every input, every read() chunking, every min_buffer, every page size, all three backends and every
@@ -75,6 +75,15 @@ Theorem C18_good_reads_meaning : forall reqs plain chunks, good_reads plain reqs
 Proof.
   intros reqs plain chunks G. split; [now apply (good_reads_prefix reqs)|]. intros E. subst. now apply (good_reads_after_end reqs).
 Qed.
+
+(* util::TokenIter over a string in memory: with BoolCharacter(kSpaces) and SkipEmpty it yields exactly the words that
+   successive ReadDelimited calls return on the same bytes; without SkipEmpty the pieces and the delimiters give the
+   string back (nothing lost, nothing invented) *)
+Theorem C18_tokeniter_words : forall l, tokens_skip_empty is_space l = words l.
+Proof. exact tokeniter_words. Qed.
+
+Theorem C18_split_join : forall d l, join_with (filter d l) (split_on d l) = l.
+Proof. exact split_join. Qed.
 
 (* ---- the code before the repairs (faithful model, variant `original`) ---- *)
 (* F11: Offset() under-reports after a compaction in read mode *)
